@@ -1,8 +1,8 @@
 #!/verif/.venv/bin/python
 # Replay of a solver counterexample against the unmodified code (no shims).
-# property=C03 kernel=estimate label=c03:nodelay_starts_at_end_or_barrier
+# property=C03 kernel=estimate label=c03:estimate_equals_inserted_delay
 import sys
 sys.path[:0] = ['/repo' + "/pulser-core", '/repo' + "/pulser-simulation", "/verif"]
 from symx.replay import replay
-sys.exit(replay(check='checks.c03', kernel='estimate', shape={'program': 'dmm_first_disjoint', 'protocol': 'no-delay'},
-                assignment={'ph0': 0, 'd0/k': 2, 'phi1': 1, 'dn/k': 2, 'phn': 0}, label='c03:nodelay_starts_at_end_or_barrier'))
+sys.exit(replay(check='checks.c03', kernel='estimate', shape={'program': 'dmm_after_shift', 'protocol': 'no-delay'},
+                assignment={'ph0': 0, 'd0/k': 2, 'phi1': 0, 'dn/k': 2}, label='c03:estimate_equals_inserted_delay'))
